@@ -261,7 +261,7 @@ def cases(tier, seed):
     # B. representatives x container x NaN mask
     for i, cls in enumerate(REPS):
         for j, cont in enumerate(CONTAINERS):
-            if quick and (i + j) % 3 and cls not in ("EOF", "MCA"):
+            if quick and (i + j) % 4 and cls not in ("EOF", "MCA"):
                 continue
             out.append(_case(cls, cont, nan=NANS[(i + j) % 3], attr="plain", where="all", dseed=200 + 10 * i + j, base_i=j))
     # C. attribute catalogue x location, all six round trips
@@ -315,7 +315,7 @@ def cases(tier, seed):
             c["combos"] = ("c", "d")[i % 2]
         else:
             c["combos"] = ("a", "b")[i % 2]
-    nrand = 70 if quick else 2400
+    nrand = 50 if quick else 2400
     for j in range(nrand):
         c = _draw(gen.rng_for(seed, 13, j))
         c["combos"] = (("c", "d") if c["lazy"] == "lazy_pre" else ("a", "b"))[j % 2] if quick else "all"
